@@ -50,6 +50,9 @@ pub use protocol::Version;
 /// verification hooks (feature `verif-hooks`): trace recorder and entropy-source re-exports.
 #[cfg(feature = "verif-hooks")]
 pub mod verif {
-    pub use crate::generator::verif::{set_aliases, start, take};
+    pub use crate::generator::verif::{
+        dispatch_bytes, dispatch_float, dispatch_int, dispatch_memo_index, dispatch_string, set_aliases,
+        start, take,
+    };
     pub use crate::generator::{EntropySource, GenerationSource};
 }
